@@ -413,7 +413,7 @@ theorem statement_partial (O : Oracles) (T : Texts) (J : Codec) (ff : Bool) (c :
 
 def exClass : ClassOpts := { name := "Foo", required := [] }
 def exFields : List (String × FieldDecl) := [("i", .integer {}), ("s", .string none (some 2) none)]
-def exOracles : Oracles := ⟨fun _ _ => false⟩
+def exOracles : Oracles := { reMatch := fun _ _ => false }
 def exCodec : Codec := ⟨fun _ => [], fun _ => .invalid, asciiWord⟩
 def exTexts : Texts := fun s =>
   if s.loc.shape == .gotLast then ("'x'".toList, "Expected <class 'int'>".toList)
